@@ -1,2 +1,30 @@
-(* C04 -- placeholder until the theorems are stated; see DESIGN.md *)
-From NV Require Import Model.Matcher Spec.Matching.
+(* C04 -- Fuzzy ranking quality.
+   Proved so far: the candidate search behind one-character needles and substring matching returns the
+   leftmost candidate with the maximal bonus (C04_best_pos) and its early exit is sound because no bonus
+   exceeds Config::max_bonus (C04_max_bonus) - the clause that was false under the path configuration
+   before the fix; the prefix bonus of the linear scorers lies in [0, 8] (C04_prefix_linear).
+   PARTIAL: "never above the true optimum" (C04_upper_stmt), the one-character optimum in its final
+   form (C04_single_stmt) and "never below the naive recurrence" need the DP invariant and are validated
+   by the brute-force oracle (all alignments, haystack <= 9) and the prefer_prefix on/off pairing. *)
+From Coq Require Import NArith List Bool.
+From NV Require Import Model.Matcher Spec.Matching Spec.Statements Proofs.C05Facts Proofs.ScoreFacts.
+Import ListNotations.
+Local Open Scope N_scope.
+
+Theorem C04_best_pos : C04_best_pos_stmt.
+Proof. exact C05Facts.C04_best_pos. Qed.
+
+Theorem C04_max_bonus : C04_max_bonus_stmt.
+Proof. exact C05Facts.C04_max_bonus. Qed.
+
+Theorem C04_prefix_linear : C04_prefix_linear_stmt.
+Proof. exact ScoreFacts.C04_prefix_linear. Qed.
+
+Example C04_nonvacuous :
+  let cfg := config_of preset_match_paths true true false in
+  run cfg Fuzzy {| rp := Ascii; cs := [32; 97; 47; 97] |} {| rp := Ascii; cs := [97] |} = Match 34 [3].
+Proof. vm_compute. reflexivity. Qed.
+
+Print Assumptions C04_best_pos.
+Print Assumptions C04_max_bonus.
+Print Assumptions C04_prefix_linear.
